@@ -14,6 +14,6 @@ Definition py_of_timer (tm : timer) : pytimer :=
 Definition py_res (r : res timer) : res pytimer := match r with Ok tm => Ok (py_of_timer tm) | Err e => Err e end.
 
 Definition py_of_job (j : job) : pyjobstate :=
-  mkPyJobState (j_mark j) (c_max_attempts (j_cfg j)) (j_attempts j) (c_delay (j_cfg j)) (c_skip (j_cfg j)) (j_start j)
+  mkPyJobState (j_mark j) (c_max_attempts (j_cfg j)) (j_attempts j) (j_failed j) (c_delay (j_cfg j)) (c_skip (j_cfg j)) (j_start j)
                (c_stop (j_cfg j)) (j_tz j) (map py_of_timer (j_timers j)) (j_pending j).
 Definition py_res_job (r : res job) : res pyjobstate := match r with Ok j => Ok (py_of_job j) | Err e => Err e end.
